@@ -75,7 +75,7 @@ StepFails(e, p, ps, ed, ud, ta, tlb, li, da, srp, at) ==
     \cup Fail("C08_Delay", C08_DelayStep(c, p.pods, s.pods, ps, s.now))
     \cup Fail("C08_Gates", C08_GatesStep(c, p.pods, s.pods, ps, srp))
     \cup Fail("C09_Keep", C09_KeepStep(p.job, s.job))
-    \cup Fail("C09_AdmOnlyForeign", C09_AdmOnlyForeignStep(p.job, s.job, at))
+    \cup Fail("C09_AdmOnlyForeign", e.ev = "Step" => C09_AdmOnlyForeignStep(p.job, s.job, at))
     \cup Fail("C10_NoLiveAtFinish", C10_NoLiveAtFinishStep(p.job, s.job, s.pods))
     \cup Fail("C11_Monotone", C11_MonotoneStep(p.job, s.job, ed))
     \cup Fail("C12_DeleteJustified", C12_DeleteJustifiedStep(c, dels, p.pods, s.pods, ps, s.now, EverOf(s), SuccOf(s)))
@@ -105,8 +105,9 @@ Next ==
            recs == {[name |-> r.name, idx |-> r.idx, retry |-> r.retry] : r \in Range(s.job.refs)}
            li == IF reset THEN recs ELSE listed \cup recs
            sr == (IF reset THEN {} ELSE succRec) \cup {r.idx : r \in {x \in Range(s.job.refs) : x.res = "Succeeded"}}
-           over == /\ s.job.ex /\ s.job.started /\ ~\E q \in Mine(s.pods) : Alive(q)
-                   /\ (s.job.adm \/ at \/ (s.job.kill # 0 /\ s.job.kill <= s.now) \/ DecidedTruth(e.cfg, s.pods, EverOf(s), SuccOf(s)))
+           over == \/ /\ s.job.ex /\ s.job.started /\ ~\E q \in Mine(s.pods) : Alive(q)
+                      /\ (s.job.adm \/ at \/ (s.job.kill # 0 /\ s.job.kill <= s.now) \/ DecidedTruth(e.cfg, s.pods, EverOf(s), SuccOf(s)))
+                   \/ (s.job.ex /\ ~s.job.started /\ s.job.adm)      \* refused by the queue controller before it started: finished, no tasks
            da == IF reset THEN 0 ELSE IF doneAt = 0 /\ over THEN s.now ELSE doneAt
            fs == StateFails(e, sr) \cup (IF reset \/ l = 1 THEN {} ELSE StepFails(e, p, ps, ed, ud, ta, tlb, listed, da, succRec, at))
            \* primary manifestations of the known cache-skew findings taint the rest of the run
